@@ -486,49 +486,74 @@ func c18Enqueue(c *Ctx) {
 			if !L.Body[s] && !(b == L.Head && s == ls.exit) {
 				problems = append(problems, fmt.Sprintf("the loop is left early from b%d", b.Index))
 			}
-			if s != L.Head || add.Block().Dominates(b) {
-				continue
-			}
-			// skip edge: must be a group/kind mismatch between the element and the watcher type
-			okSkip := false
-			for _, f := range p.edgeFacts(b, s) {
-				bin, isBin := f.Cond.(*ssa.BinOp)
-				if !isBin || !((bin.Op == token.NEQ && f.Pol) || (bin.Op == token.EQL && !f.Pol)) {
-					continue
-				}
-				isGK := func(v ssa.Value, base func(ssa.Value) bool) bool {
-					u, isU := v.(*ssa.UnOp)
-					if !isU {
-						return false
-					}
-					fa, isFA := u.X.(*ssa.FieldAddr)
-					if !isFA {
-						return false
-					}
-					n := fieldName(fa.X.Type(), fa.Field)
-					return (n == "Kind" || n == "Group") && p.pfDerives(fa.X, base)
-				}
-				fromRecv := func(v ssa.Value) bool { return v == ssa.Value(recv) }
-				if (isGK(bin.X, elem) && isGK(bin.Y, fromRecv)) || (isGK(bin.Y, elem) && isGK(bin.X, fromRecv)) {
-					okSkip = true
-				}
-			}
-			if !okSkip {
-				problems = append(problems, fmt.Sprintf("an owner is skipped (edge b%d→b%d) for a reason other than a group/kind mismatch with the watcher type", b.Index, s.Index))
-			}
 		}
 	}
-	// the request names the element
-	if f, _, ok := compositeFields(add.Common().Args[0]); ok {
-		_ = f
+	// every way through the loop body that does not enqueue the element must have observed a
+	// group/kind mismatch between the element and the watcher type. Judged per path (the body is
+	// small and acyclic), so `continue` guards, wrapped bodies, nested ifs, `&&`/`||` and booleans that
+	// materialise the comparison (De Morgan included) are all the same thing.
+	isGK := func(v ssa.Value, base func(ssa.Value) bool) string {
+		u, isU := v.(*ssa.UnOp)
+		if !isU {
+			return ""
+		}
+		fa, isFA := u.X.(*ssa.FieldAddr)
+		if !isFA {
+			return ""
+		}
+		n := fieldName(fa.X.Type(), fa.Field)
+		if (n == "Kind" || n == "Group") && p.pfDerives(fa.X, base) {
+			return n
+		}
+		return ""
 	}
-	if !p.pfDerives(add.Common().Args[0], func(v ssa.Value) bool {
-		fa, ok := v.(*ssa.FieldAddr)
-		return ok && fieldName(fa.X.Type(), fa.Field) == "Name" && p.pfDerives(fa.X, elem)
-	}) || !p.pfDerives(add.Common().Args[0], func(v ssa.Value) bool {
-		fa, ok := v.(*ssa.FieldAddr)
-		return ok && fieldName(fa.X.Type(), fa.Field) == "Namespace" && p.pfDerives(fa.X, elem)
-	}) {
+	fromRecv := func(v ssa.Value) bool { return v == ssa.Value(recv) }
+	isMismatch := func(f Fact) bool {
+		bin, isBin := f.Cond.(*ssa.BinOp)
+		if !isBin || !((bin.Op == token.NEQ && f.Pol) || (bin.Op == token.EQL && !f.Pol)) {
+			return false
+		}
+		if n := isGK(bin.X, elem); n != "" && n == isGK(bin.Y, fromRecv) {
+			return true
+		}
+		if n := isGK(bin.Y, elem); n != "" && n == isGK(bin.X, fromRecv) {
+			return true
+		}
+		return false
+	}
+	paths, complete := p.c18PathsAvoiding(L, add.Block())
+	if !complete {
+		o.Unknown("the body of the loop over the owners has too many paths to classify the skipped owners")
+		return
+	}
+	for _, path := range paths {
+		fs, feasible := p.c18PathFacts(path)
+		if !feasible {
+			continue
+		}
+		okSkip := false
+		for _, f := range fs {
+			if isMismatch(f) {
+				okSkip = true
+			}
+		}
+		if !okSkip {
+			var bs []string
+			for _, b := range path {
+				bs = append(bs, fmt.Sprintf("b%d", b.Index))
+			}
+			problems = append(problems, "an owner is skipped (path "+strings.Join(bs, "→")+") for a reason other than a group/kind mismatch with the watcher type")
+		}
+	}
+	// the request names the element (the request may be built by an extracted helper)
+	carries := func(field string) bool {
+		return p.c18DerivesX(add.Common().Args[0], nil, 0, func(v ssa.Value, b *c18bind) bool {
+			fa, ok := v.(*ssa.FieldAddr)
+			return ok && fieldName(fa.X.Type(), fa.Field) == field &&
+				p.c18DerivesX(fa.X, b, 0, func(x ssa.Value, _ *c18bind) bool { return elem(x) })
+		})
+	}
+	if !carries("Name") || !carries("Namespace") {
 		problems = append(problems, "the enqueued request does not carry the owner's name and namespace")
 	}
 	if len(problems) == 0 {
@@ -574,6 +599,139 @@ func c18Enqueue(c *Ctx) {
 			oo.Fail("the handler does not unconditionally enqueue the watchers of the event's object")
 		}
 	}
+}
+
+// c18PathsAvoiding enumerates the acyclic paths of one iteration of loop L (from the head back to the
+// head) that do not pass through block `avoid`. complete=false when there are too many.
+func (p *Program) c18PathsAvoiding(L *Loop, avoid *ssa.BasicBlock) (paths [][]*ssa.BasicBlock, complete bool) {
+	complete = true
+	var walk func(path []*ssa.BasicBlock)
+	walk = func(path []*ssa.BasicBlock) {
+		if !complete {
+			return
+		}
+		b := path[len(path)-1]
+		for _, s := range b.Succs {
+			switch {
+			case s == L.Head:
+				if len(paths) >= 512 {
+					complete = false
+					return
+				}
+				paths = append(paths, append(append([]*ssa.BasicBlock{}, path...), s))
+			case !L.Body[s] || s == avoid:
+			default:
+				onPath := false
+				for _, x := range path {
+					if x == s {
+						onPath = true
+					}
+				}
+				if !onPath {
+					walk(append(append([]*ssa.BasicBlock{}, path...), s))
+				}
+			}
+		}
+	}
+	walk([]*ssa.BasicBlock{L.Head})
+	return paths, complete
+}
+
+// c18PathFacts: the conditions known along a concrete path. A condition that is a boolean phi is
+// resolved to the value it received on this path; feasible=false when a constant phi input
+// contradicts the branch taken.
+func (p *Program) c18PathFacts(path []*ssa.BasicBlock) (fs []Fact, feasible bool) {
+	pos := map[*ssa.BasicBlock]int{}
+	for i, b := range path {
+		if _, dup := pos[b]; !dup {
+			pos[b] = i
+		}
+	}
+	for i := 0; i+1 < len(path); i++ {
+		for _, f := range p.edgeFacts(path[i], path[i+1]) {
+			for n := 0; n < 8; n++ {
+				ph, isPhi := f.Cond.(*ssa.Phi)
+				if !isPhi {
+					break
+				}
+				k, on := pos[ph.Block()]
+				if !on || k == 0 || k > i {
+					break
+				}
+				var in ssa.Value
+				for j, pr := range ph.Block().Preds {
+					if pr == path[k-1] && j < len(ph.Edges) {
+						in = ph.Edges[j]
+					}
+				}
+				if in == nil {
+					break
+				}
+				if cb, isC := constBool(in); isC {
+					if cb != f.Pol {
+						return nil, false
+					}
+					f = Fact{}
+					break
+				}
+				f = p.mkFact(in, f.Pol)
+			}
+			if f.Cond != nil {
+				fs = append(fs, f)
+			}
+		}
+	}
+	// contradictory facts make the path infeasible
+	seen := map[string]bool{}
+	for _, f := range fs {
+		k := p.key(f.Cond)
+		if v, ok := seen[k]; ok && v != f.Pol {
+			return nil, false
+		}
+		seen[k] = f.Pol
+	}
+	return fs, true
+}
+
+// c18bind maps the parameters of an extracted helper to the arguments of the call under inspection.
+type c18bind struct {
+	call  *ssa.Call
+	outer *c18bind
+}
+
+// c18DerivesX: pfDerives that also looks into the results of extracted (inlinable) helpers, with the
+// helper's parameters standing for the arguments of that call.
+func (p *Program) c18DerivesX(v ssa.Value, bind *c18bind, depth int, pred func(ssa.Value, *c18bind) bool) bool {
+	return p.pfDerives(v, func(x ssa.Value) bool {
+		if pred(x, bind) {
+			return true
+		}
+		if prm, ok := x.(*ssa.Parameter); ok && bind != nil {
+			if h := staticCallee(bind.call.Common()); h != nil && prm.Parent() == h {
+				if i := paramIndex(h, prm); i >= 0 && i < len(bind.call.Common().Args) {
+					return p.c18DerivesX(bind.call.Common().Args[i], bind.outer, depth, pred)
+				}
+			}
+			return false
+		}
+		if call, ok := x.(*ssa.Call); ok && depth < 3 {
+			if h := staticCallee(call.Common()); h != nil && p.inlinable(h) {
+				for _, b := range h.Blocks {
+					if len(b.Instrs) == 0 || (h.Recover != nil && b == h.Recover) {
+						continue
+					}
+					if ret, isRet := b.Instrs[len(b.Instrs)-1].(*ssa.Return); isRet {
+						for _, r := range ret.Results {
+							if p.c18DerivesX(r, &c18bind{call: call, outer: bind}, depth+1, pred) {
+								return true
+							}
+						}
+					}
+				}
+			}
+		}
+		return false
+	})
 }
 
 func c18Retry(c *Ctx) {
@@ -797,54 +955,113 @@ func c18r4(c *Ctx) {
 		pt, isP := t.Underlying().(*types.Pointer)
 		return isP && namedTypeString(pt.Elem()) == pkgObjTemplate+"."+name
 	}
-	// (a) the mapper
+	// (a) the mapper: the function in which the decision to report Invalid is taken. Normally that is
+	// the function containing the SetStatusCondition call; when the condition literal was extracted
+	// into an unexported helper, it is the function (reached through the helper's call sites) in which
+	// the errors.As test guards the call.
 	var mapper *ssa.Function
-	for _, fn := range p.FuncsIn(pkgObjTemplate) {
-		for _, cs := range conditionSets(fn) {
+	asGuard := func(fs []Fact) (string, bool) {
+		var which string
+		_, ok := p.findFactCall(fs, true, []string{"errors.As"}, func(cc *ssa.CallCommon) bool {
+			if len(cc.Args) != 2 {
+				return false
+			}
+			if _, isPrm := stripConv(cc.Args[0]).(*ssa.Parameter); !isPrm {
+				return false
+			}
+			a, isA := stripConv(cc.Args[1]).(*ssa.Alloc)
+			if !isA {
+				return false
+			}
+			pt, _ := a.Type().Underlying().(*types.Pointer)
+			for _, n := range []string{"SourceError", "TemplateError"} {
+				if pt != nil && isErrType(pt.Elem(), n) {
+					which = n
+					return true
+				}
+			}
+			return false
+		})
+		return which, ok
+	}
+	type invCtx struct {
+		fn    *ssa.Function
+		site  ssa.Instruction
+		chain []Call // helper calls from fn down to the SetStatusCondition (outermost first)
+	}
+	var contextsOf func(fn *ssa.Function, site ssa.Instruction, chain []Call, depth int) ([]invCtx, bool)
+	contextsOf = func(fn *ssa.Function, site ssa.Instruction, chain []Call, depth int) ([]invCtx, bool) {
+		if _, ok := asGuard(p.FactsAt(site.Block())); ok {
+			return []invCtx{{fn, site, chain}}, true
+		}
+		if depth >= 3 || !p.inlinable(fn) {
+			return nil, false
+		}
+		var out []invCtx
+		for _, cl := range p.callersOf(fn) {
+			if cl.Fn == fn {
+				continue
+			}
+			sub, ok := contextsOf(cl.Fn, cl.Instr, append([]Call{cl}, chain...), depth+1)
+			if !ok {
+				return nil, false
+			}
+			out = append(out, sub...)
+		}
+		return out, len(out) > 0
+	}
+	resolveUp := func(v ssa.Value, chain []Call) ssa.Value {
+		for i := len(chain) - 1; i >= 0 && v != nil; i-- {
+			prm, isPrm := stripConv(v).(*ssa.Parameter)
+			h := staticCallee(chain[i].Common)
+			if !isPrm || h == nil || prm.Parent() != h {
+				break
+			}
+			idx := paramIndex(h, prm)
+			if idx < 0 || idx >= len(chain[i].Common.Args) {
+				break
+			}
+			v = chain[i].Common.Args[idx]
+		}
+		return v
+	}
+	for _, sfn := range p.FuncsIn(pkgObjTemplate) {
+		for _, cs := range conditionSets(sfn) {
 			if cs.Type != invalid {
 				continue
 			}
-			mapper = fn
-			o := c.Ob(fn, "Invalid-"+cs.Reason, cs.Call.Instr, "Invalid=True is set under errors.As(err, **SourceError / **TemplateError) and the mapper then returns nil so that the status is persisted")
-			var problems []string
-			if cs.Status != "True" {
-				problems = append(problems, "status is "+cs.Status)
+			ctxs, guarded := contextsOf(sfn, cs.Call.Instr, nil, 0)
+			if !guarded {
+				ctxs = []invCtx{{sfn, cs.Call.Instr, nil}}
 			}
-			fs := p.FactsAt(cs.Call.Block())
-			var which string
-			if _, ok := p.findFactCall(fs, true, []string{"errors.As"}, func(cc *ssa.CallCommon) bool {
-				if len(cc.Args) != 2 {
-					return false
+			for _, ic := range ctxs {
+				fn := ic.fn
+				mapper = fn
+				reason := cs.Reason
+				if reason == "" && cs.Fields != nil {
+					reason, _ = constString(resolveUp(cs.Fields["Reason"], ic.chain))
 				}
-				if _, isPrm := stripConv(cc.Args[0]).(*ssa.Parameter); !isPrm {
-					return false
+				o := c.Ob(fn, "Invalid-"+reason, ic.site, "Invalid=True is set under errors.As(err, **SourceError / **TemplateError) and the mapper then returns nil so that the status is persisted")
+				var problems []string
+				if cs.Status != "True" {
+					problems = append(problems, "status is "+cs.Status)
 				}
-				a, isA := stripConv(cc.Args[1]).(*ssa.Alloc)
-				if !isA {
-					return false
+				which, ok := asGuard(p.FactsAt(ic.site.Block()))
+				if !ok {
+					problems = append(problems, "not guarded by errors.As(<err parameter>, **SourceError|**TemplateError) == true")
 				}
-				pt, _ := a.Type().Underlying().(*types.Pointer)
-				for _, n := range []string{"SourceError", "TemplateError"} {
-					if pt != nil && isErrType(pt.Elem(), n) {
-						which = n
-						return true
+				for _, in := range reachableAfter(ic.site, nil) {
+					if r, isRet := in.(*ssa.Return); isRet {
+						if len(r.Results) != 1 || !isNilConst(r.Results[0]) {
+							problems = append(problems, "the mapper does not return nil after setting Invalid at "+p.IPos(r))
+						}
 					}
 				}
-				return false
-			}); !ok {
-				problems = append(problems, "not guarded by errors.As(<err parameter>, **SourceError|**TemplateError) == true")
-			}
-			for _, in := range reachableAfter(cs.Call.Instr, nil) {
-				if r, isRet := in.(*ssa.Return); isRet {
-					if len(r.Results) != 1 || !isNilConst(r.Results[0]) {
-						problems = append(problems, "the mapper does not return nil after setting Invalid at "+p.IPos(r))
-					}
+				if len(problems) == 0 {
+					o.OK("class " + which)
+				} else {
+					o.Fail("%s", strings.Join(problems, "; "))
 				}
-			}
-			if len(problems) == 0 {
-				o.OK("class " + which)
-			} else {
-				o.Fail("%s", strings.Join(problems, "; "))
 			}
 		}
 	}
